@@ -4,6 +4,7 @@ package props
 
 import (
 	"fmt"
+	"math/big"
 	"runtime"
 	"testing"
 
@@ -101,7 +102,8 @@ func evalC19(c c19Case, rec *hx.Rec) error {
 	var unc [][64]byte
 	res := make([]*fr.Element, len(list))
 	for i := range res {
-		res[i] = new(fr.Element)
+		d := hx.FrFromBig(big.NewInt(int64(1001 + 2*i))) // dirty destinations: a skipped write must show
+		res[i] = &d
 	}
 	var merr error
 	if perr := hx.Try(func() {
